@@ -3,8 +3,8 @@
    Print Assumptions follows every theorem.   *)
 
 From Coq Require Import List NArith Bool Sorting Permutation.
-From Ice Require Import Base Spec.
-From IceProofs Require MergeAlgebra_Proofs Docnums_Proofs Sort_Proofs.
+From Ice Require Import Base Spec Enumerator.
+From IceProofs Require MergeAlgebra_Proofs Docnums_Proofs Sort_Proofs Enumerator_Proofs.
 Import ListNotations.
 Open Scope N_scope.
 
@@ -12,7 +12,7 @@ Open Scope N_scope.
 Theorem merge_docs :
     forall ins : list (ASeg * list N),
     as_docs (fst (merge_spec ins)) = flat_map' (fun p : ASeg * list N => survivors (fst p) (snd p)) ins.
-Proof. exact MergeAlgebra_Proofs.merge_docs. Qed.
+Proof. exact @MergeAlgebra_Proofs.merge_docs. Qed.
 Print Assumptions merge_docs.
 
 (* the field list is the union with _id first *)
@@ -20,14 +20,14 @@ Theorem merge_fields :
     forall ins : list (ASeg * list N),
     as_fields (fst (merge_spec ins)) =
     field_list (flat_map' (fun p : ASeg * list N => as_fields (fst p)) ins).
-Proof. exact MergeAlgebra_Proofs.merge_fields. Qed.
+Proof. exact @MergeAlgebra_Proofs.merge_fields. Qed.
 Print Assumptions merge_fields.
 
 Theorem merge_fields_In :
     forall (ins : list (ASeg * list N)) (f : bytes),
     In f (as_fields (fst (merge_spec ins))) <->
     f = id_name \/ (exists (A : ASeg) (dr : list N), In (A, dr) ins /\ In f (as_fields A)).
-Proof. exact MergeAlgebra_Proofs.merge_fields_In. Qed.
+Proof. exact @MergeAlgebra_Proofs.merge_fields_In. Qed.
 Print Assumptions merge_fields_In.
 
 Theorem merge_fields_id_first :
@@ -35,7 +35,7 @@ Theorem merge_fields_id_first :
     exists rest : list bytes,
     as_fields (fst (merge_spec ins)) = id_name :: rest /\
     Sort_Proofs.strict_sorted_bytes rest /\ ~ In id_name rest.
-Proof. exact MergeAlgebra_Proofs.merge_fields_id_first. Qed.
+Proof. exact @MergeAlgebra_Proofs.merge_fields_id_first. Qed.
 Print Assumptions merge_fields_id_first.
 
 (* postings of the merged segment are those of the surviving documents under their new numbers *)
@@ -47,7 +47,7 @@ Theorem merge_postings_docs :
     flat_map' (doc_posting f t)
     (number_from 0 (flat_map' (fun p : ASeg * list N => survivors (fst p) (snd p)) ins))
     else []).
-Proof. exact MergeAlgebra_Proofs.merge_postings_docs. Qed.
+Proof. exact @MergeAlgebra_Proofs.merge_postings_docs. Qed.
 Print Assumptions merge_postings_docs.
 
 (* terms whose documents were all deleted disappear *)
@@ -57,7 +57,7 @@ Theorem merge_terms_survive :
     known_field (fst (merge_spec ins)) f = true /\
     (exists (p : ASeg * list N) (d : ADoc),
     In p ins /\ In d (survivors (fst p) (snd p)) /\ In t (map fst (doc_terms d f))).
-Proof. exact MergeAlgebra_Proofs.merge_terms_survive. Qed.
+Proof. exact @MergeAlgebra_Proofs.merge_terms_survive. Qed.
 Print Assumptions merge_terms_survive.
 
 (* deleted documents are unreachable; survivors keep their content *)
@@ -69,10 +69,55 @@ Theorem docnums_content :
     nth_error (as_docs (fst (merge_spec ins)))
     (N.to_nat (Docnums_Proofs.base_of ins k + Docnums_Proofs.rank_of dr d)) = 
     nth_error (as_docs A) d.
-Proof. exact Docnums_Proofs.docnums_content. Qed.
+Proof. exact @Docnums_Proofs.docnums_content. Qed.
 Print Assumptions docnums_content.
 
 Theorem survivors_nil_drops :
     forall A : ASeg, survivors A [] = as_docs A.
-Proof. exact MergeAlgebra_Proofs.survivors_nil_drops. Qed.
+Proof. exact @MergeAlgebra_Proofs.survivors_nil_drops. Qed.
 Print Assumptions survivors_nil_drops.
+
+(* the k-way merge of the input dictionaries (enumerator.go, with vellum's real iterator behaviour) visits every (term, segment, value) exactly once, sorted by term then segment, including the empty term *)
+Theorem enumerator_sorted_complete :
+    forall (its : list vitr) (fuel : nat),
+    Forall Enumerator_Proofs.key_sorted its ->
+    Forall Enumerator_Proofs.empty_key_nz its ->
+    (total_pairs its <= fuel)%nat -> enum_run_new fuel its = spec_triples its.
+Proof. exact @Enumerator_Proofs.enumerator_sorted_complete. Qed.
+Print Assumptions enumerator_sorted_complete.
+
+Theorem enumerator_visits_each_once :
+    forall (its : list vitr) (fuel : nat),
+    Forall Enumerator_Proofs.key_sorted its ->
+    Forall Enumerator_Proofs.empty_key_nz its ->
+    (total_pairs its <= fuel)%nat ->
+    NoDup (map fst (enum_run_new fuel its)) /\
+    (forall (k : bytes) (i : nat) (v : N),
+    In (k, i, v) (enum_run_new fuel its) <-> (i < length its)%nat /\ In (k, v) (nth i its [])).
+Proof. exact @Enumerator_Proofs.enumerator_visits_each_once. Qed.
+Print Assumptions enumerator_visits_each_once.
+
+(* GetLowIdxsAndValues returns exactly the segments positioned on the current term *)
+Theorem enum_low_idxs :
+    forall (its : list vitr) (fuel : nat) (k : bytes) (i : nat) (v : N) (idxs : list nat) (vals : list N),
+    Forall Enumerator_Proofs.key_sorted its ->
+    Forall Enumerator_Proofs.empty_key_nz its ->
+    (total_pairs its <= fuel)%nat ->
+    In (k, i, v, (idxs, vals)) (enum_run_low_new fuel its) ->
+    idxs = idxs_with k its /\
+    vals = vals_with k its /\
+    StronglySorted lt idxs /\
+    (forall j : nat, In j idxs <-> (j < length its)%nat /\ has_key k (nth j its []) = true) /\ In i idxs.
+Proof. exact @Enumerator_Proofs.enum_low_idxs. Qed.
+Print Assumptions enum_low_idxs.
+
+(* the one excluded case (an empty term whose FST value is 0, which ice never writes) is refuted by a witness: the hypothesis is necessary *)
+Theorem empty_key_zero_value_refuted :
+    exists its : list vitr,
+    Forall Enumerator_Proofs.key_sorted its /\
+    (forall (l : vitr) (k : bytes) (v : N), In l its -> In (k, v) l -> k <> [] -> v <> 0) /\
+    enum_run_new (S (total_pairs its)) its <> spec_triples its /\
+    In (Enumerator_Proofs.ka, 0%nat, 9) (all_triples its) /\
+    ~ In (Enumerator_Proofs.ka, 0%nat, 9) (enum_run_new (S (total_pairs its)) its).
+Proof. exact @Enumerator_Proofs.empty_key_zero_value_refuted. Qed.
+Print Assumptions empty_key_zero_value_refuted.
